@@ -63,6 +63,7 @@ struct ConcPlan
     std::vector<uint32_t> change_points;
     std::vector<uint32_t> fine; // basic-block preemption counts (ascending)
     std::vector<uint32_t> susp; // ordinals of "locked code running unlocked" executions to preempt at
+    uint32_t              relock_stall{0};
     std::string           note; // e.g. the method pair of a matrix plan
 
     js::Value to_json() const
@@ -136,6 +137,8 @@ struct ConcPlan
                 f.push(js::Value::integer(x));
             s.set("susp", std::move(f));
         }
+        if (relock_stall)
+            s.set("relock_stall", relock_stall);
         v.set("sched", std::move(s));
         return v;
     }
@@ -188,6 +191,7 @@ struct ConcPlan
         change_points.clear();
         fine.clear();
         susp.clear();
+        relock_stall = 0;
         stall_client = -1;
         if (auto* s = v.get("sched"))
         {
@@ -214,6 +218,7 @@ struct ConcPlan
             if (auto* f = s->get("susp"))
                 for (auto& x : f->a)
                     susp.push_back((uint32_t)x.i);
+            relock_stall = (uint32_t)s->geti("relock_stall");
         }
         normalize();
         return true;
@@ -614,6 +619,7 @@ struct ConcRun
         spec.nfine         = plan.fine.size();
         spec.susp          = plan.susp.data();
         spec.nsusp         = plan.susp.size();
+        spec.relock_stall  = plan.relock_stall;
         spec.obj_lo        = box->obj_addr();
         spec.obj_hi        = (const char*)box->obj_addr() + box->obj_size();
         sched::begin_run(spec);
@@ -666,6 +672,7 @@ struct ConcRun
         out.st.bump("probe.unlocked_basic_blocks", sched::fine_seen());
         out.st.bump("fault.preempt_in_locked_code_running_unlocked", sched::susp_fired());
         out.st.bump("probe.locked_code_running_unlocked", sched::susp_seen());
+        out.st.bump("fault.stall_at_second_lock_acquisition", sched::relock_fired());
 
         std::map<std::tuple<int, int, int>, size_t> where; // (client, epoch, idx) -> hist index
         for (size_t e = 0; e < plan.epochs.size(); ++e)
@@ -1333,6 +1340,11 @@ struct CGen
             p.stall_from   = (uint32_t)r.below(12);
             p.stall_len    = (uint32_t)r.range(3, 40);
         }
+        // ---- a call that takes the container's lock a second time is parked there while the others run on
+        {
+            static const uint32_t rs[] = {0, 6, 14, 30, 60};
+            p.relock_stall             = rs[r.below(5)];
+        }
         // ---- preemptions where code that calibration saw only under the lock runs without it
         //      (never happens on a tree that locks consistently, so it costs nothing there)
         if (r.chance(3, 4))
@@ -1693,6 +1705,13 @@ size_t conc_shrink_json(js::Value& pj, const std::function<bool(const js::Value&
         {
             ConcPlan c     = plan;
             c.stall_client = -1;
+            if (try_plan(c))
+                progress = true;
+        }
+        if (plan.relock_stall)
+        {
+            ConcPlan c     = plan;
+            c.relock_stall = 0;
             if (try_plan(c))
                 progress = true;
         }
